@@ -56,7 +56,9 @@ def main():
         d = scratch()
         try:
             if patch:
-                subprocess.check_call(["patch", "-s", "-p1", "-d", d, "-i", patch])
+                pr = subprocess.run(["patch", "-s", "-p1", "-d", d, "-i", patch], capture_output=True, text=True)
+                if pr.returncode != 0:
+                    print(f"SKIP {name}: patch does not apply to the current tree"); continue
             else:
                 for (fn, old, new) in edits:
                     p = os.path.join(d, fn); s = open(p).read()
@@ -85,6 +87,32 @@ def main():
             bad += 1
         finally:
             shutil.rmtree(d, ignore_errors=True)
+    # behaviour-preserving refactorings (cumulative patches against the base tree): all 20 checks must stay silent
+    if "--benign" in args:
+        for f in sorted(glob.glob(os.path.join(HERE, "benign", "*.diff"))):
+            name = os.path.basename(f)[:-5]
+            if only and only not in name: continue
+            d = scratch()
+            try:
+                pr = subprocess.run(["patch", "-s", "-p1", "-d", d, "-i", f], capture_output=True, text=True)
+                if pr.returncode != 0:
+                    print(f"SKIP refactor {name}: patch does not apply to the current tree"); continue
+                b = subprocess.run(["go", "build", "./..."], cwd=d, env=ENV, capture_output=True, text=True)
+                if b.returncode != 0:
+                    print(f"NOBUILD refactor {name}"); bad += 1; continue
+                alarms = []
+                for prop in ["C%02d" % i for i in range(1, 21)]:
+                    if props and prop not in props: continue
+                    rc, out = run_check(prop, d, evdir)
+                    if rc != 0:
+                        alarms.append(prop + ": " + " | ".join([l for l in out.splitlines() if "[" + prop + "/" in l][:2])[:300])
+                if alarms:
+                    bad += 1
+                    print(f"FALSE-ALARM refactor {name}\n    " + "\n    ".join(alarms))
+                else:
+                    print(f"SILENT refactor {name} (all checks)")
+            finally:
+                shutil.rmtree(d, ignore_errors=True)
     shutil.rmtree(evdir, ignore_errors=True)
     print(f"{bad} problems")
     sys.exit(1 if bad else 0)
